@@ -25,19 +25,19 @@ def sendsInFlight (s : State M E) : Nat :=
   (if s.main = .uSendPending then 1 else 0) + (if s.i2o = .sendPending then 1 else 0)
 
 /-- the response pump is inside outgoing.Recv -/
-def OPc.inRecv : OPc M E → Bool
+def OPc.outRecving : OPc M E → Bool
   | .recvPending _ => true
   | .recv2Pending _ => true
   | .absent => false | .recvCall _ => false | .recv2Call _ => false | .header _ _ => false | .setHeader _ _ => false
   | .trailer _ => false | .setTrailer _ => false | .sendCall _ _ => false | .sendPending _ => false | .exited => false
 
-attribute [simp] OPc.inRecv.eq_1 OPc.inRecv.eq_2 OPc.inRecv.eq_3 OPc.inRecv.eq_4 OPc.inRecv.eq_5 OPc.inRecv.eq_6 OPc.inRecv.eq_7 OPc.inRecv.eq_8 OPc.inRecv.eq_9 OPc.inRecv.eq_10 OPc.inRecv.eq_11 OPc.inRecv.eq_12
+attribute [simp] OPc.outRecving.eq_1 OPc.outRecving.eq_2 OPc.outRecving.eq_3 OPc.outRecving.eq_4 OPc.outRecving.eq_5 OPc.outRecving.eq_6 OPc.outRecving.eq_7 OPc.outRecving.eq_8 OPc.outRecving.eq_9 OPc.outRecving.eq_10 OPc.outRecving.eq_11 OPc.outRecving.eq_12
 
 /-- outgoing.Recv calls issued by Forward (the response pump) that have not returned -/
-def recvsInFlight (s : State M E) : Nat := if s.o2i.inRecv then 1 else 0
+def recvsInFlight (s : State M E) : Nat := if s.o2i.outRecving then 1 else 0
 
-@[simp] theorem After.pc_inRecv (k : After M E) : k.pc.inRecv = false := by cases k <;> rfl
-@[simp] theorem afterRecv_inRecv (s : State M E) (h t : Bool) (k : After M E) : (afterRecv s h t k).o2i.inRecv = false := by
+@[simp] theorem After.pc_outRecving (k : After M E) : k.pc.outRecving = false := by cases k <;> rfl
+@[simp] theorem afterRecv_outRecving (s : State M E) (h t : Bool) (k : After M E) : (afterRecv s h t k).o2i.outRecving = false := by
   cases h <;> cases t <;> cases k <;> rfl
 @[simp] theorem beginReturn_notSend (s : State M E) (c : Bool) (e : Option (Err E)) :
     ((beginReturn s c e).main = .uSendPending) = False := by cases c <;> simp [beginReturn]
